@@ -363,7 +363,9 @@ class Registry(object):
         # sat: replay
         info = {"obligation": oid, "model": model_to_dict(model),
                 "goal": _short(goal, 4000)}
-        if describe is not None:
+        if isinstance(describe, str):
+            info["statement"] = describe
+        elif describe is not None:
             try:
                 info["witness"] = describe(model)
             except Exception as exc:  # pragma: no cover
